@@ -80,6 +80,22 @@ static void set_passive(LocalNetwork* n, long long k)
   n->update_observations();
 }
 
+// "fixpt:k": the k-th adjusted point (in identifier order, modulo) becomes a FIXED point - the caller edits PD and tells
+// the network with update_points().  Handled like "passive:k": the reference gets the first such edit before its first
+// adjustment, later ones in sequence.
+static void set_fixed_point(LocalNetwork* n, long long k)
+{
+  std::vector<GNU_gama::local::LocalPoint*> free_pts;
+  for (auto& kv : n->PD) if (kv.second.free_xy() || kv.second.free_z()) free_pts.push_back(&kv.second);
+  if (free_pts.size() < 2) return;                       // the last adjusted point stays
+  GNU_gama::local::LocalPoint* p = free_pts[(size_t)(k % (long long)free_pts.size())];
+  if (p->free_xy() && p->test_xy()) p->set_fixed_xy();
+  if (p->free_z() && p->test_z()) p->set_fixed_z();
+  n->update_points();
+}
+static bool is_edit(const std::string& c) { return c.compare(0, 8, "passive:") == 0 || c.compare(0, 6, "fixpt:") == 0; }
+static void do_edit(LocalNetwork* n, const std::string& c);
+
 // what gama-local does first with a network whose observations changed: GeneralParameters() -> null_space(), which
 // also removes points that have become singular.  The reference does it when it is built.
 static void settle(LocalNetwork* n)
@@ -99,13 +115,19 @@ static void set_par(LocalNetwork* n, const std::string& c)
   else if (c.compare(0, 5, "par:s") == 0) { static const double M0[] = {5, 20, 10, 1}; n->apriori_m_0(M0[atoi(c.c_str() + 5) % 4]); n->update_residuals(); }   // a priori reference standard deviation; the setter leaves the notification to the caller
 }
 
+static void do_edit(LocalNetwork* n, const std::string& c)
+{
+  if (c.compare(0, 8, "passive:") == 0) set_passive(n, atoll(c.c_str() + 8));
+  else if (c.compare(0, 6, "fixpt:") == 0) set_fixed_point(n, atoll(c.c_str() + 6));
+}
+
 static void apply_change(LocalNetwork* n, const std::string& c)
 {
   if (is_par(c)) set_par(n, c);
   else if (c == "refine") n->refine_adjustment();
   else if (c == "refcoord") { n->solve(); n->refine_approx_coordinates(); }
   else if (c.compare(0, 4, "alg:") == 0) n->set_algorithm(c.substr(4));
-  else if (c.compare(0, 8, "passive:") == 0) { set_passive(n, atoll(c.c_str() + 8)); settle(n); }
+  else if (is_edit(c)) { do_edit(n, c); settle(n); }
   else if (c == "upd:0") n->update_points();
   else if (c == "upd:1") n->update_observations();
   else if (c == "upd:2") n->update_residuals();
@@ -124,13 +146,13 @@ static Built build(const gnet::Doc& d, const std::string& alg0, const std::vecto
       // indeterminable) is decided round by round and never taken back, so "three observations off, then adjust" and
       // "one off, adjust, the next off, adjust, ..." are different inputs.
       bool first = true;
-      for (auto& c : changes) { if (c.compare(0, 8, "passive:") == 0) { if (first) set_passive(n, atoll(c.c_str() + 8)); first = false; } else if (is_par(c)) set_par(n, c); }
+      for (auto& c : changes) { if (is_edit(c)) { if (first) do_edit(n, c); first = false; } else if (is_par(c)) set_par(n, c); }
     });
     b.adjustable = p.adjustable; b.why = p.why;
     bool first = true;
     if (b.adjustable) for (auto& c : changes) {
       if (is_par(c)) continue;
-      if (c.compare(0, 8, "passive:") == 0) { if (first) { first = false; continue; } }
+      if (is_edit(c)) { if (first) { first = false; continue; } }
       apply_change(b.net.get(), c);
     }
   });
@@ -261,13 +283,13 @@ Verdict execute(const Plan& plan, EventLog& log, Stats& st)
       log.line("%d o%lld %s", n, s.arg(0) % nobj, c.c_str()); st.add("ops.parameter"); st.nontrivial = true; st.shape += "net:" + c + ",";
       st.state("hist", fmt("net/%s/asked%d", c.substr(0, 5).c_str(), std::min(O.asked, 2)));
     } else if (op == "chg") {
-      int w = (int)(s.arg(1) % 6);
+      int w = (int)(s.arg(1) % 7);
       // (nor after a switch to another algorithm: the reference takes the observation out before its FIRST adjustment,
       // which runs under the initial algorithm, and which points an adjustment removes as singular or indeterminable
       // is decided numerically by the algorithm in force - after a switch the two orders are different inputs)
       bool moved = false; for (auto& c0 : O.changes) if (c0 == "refine" || c0 == "refcoord" || (c0.compare(0, 4, "alg:") == 0 && c0.substr(4) != O.alg0)) moved = true;
-      if (w == 5 && moved) { n++; continue; }
-      std::string c = w == 5 ? fmt("passive:%lld", s.arg(2) % 1000) : w == 0 ? "refine" : w == 1 ? "refcoord" : w == 2 ? "alg:" + (O.changes.empty() ? O.alg0 : O.alg0) : w == 3 ? std::string("alg:") + ALGS[s.arg(2) % 4] : "alg:" + O.alg0;
+      if ((w == 5 || w == 6) && moved) { n++; continue; }
+      std::string c = w == 6 ? fmt("fixpt:%lld", s.arg(2) % 1000) : w == 5 ? fmt("passive:%lld", s.arg(2) % 1000) : w == 0 ? "refine" : w == 1 ? "refcoord" : w == 2 ? "alg:" + (O.changes.empty() ? O.alg0 : O.alg0) : w == 3 ? std::string("alg:") + ALGS[s.arg(2) % 4] : "alg:" + O.alg0;
       Val r = guarded([&](Val&) { apply_change(net, c); });
       O.changes.push_back(c);
       log.line("%d o%lld change %s %s", n, s.arg(0) % nobj, c.c_str(), r.exc.c_str()); st.add("ops.change"); st.nontrivial = true; st.shape += "net:" + c.substr(0, 7) + ",";
@@ -347,7 +369,7 @@ void generate(Plan& p, Rng& g, const std::string&)
       int r = (int)g.below(10);
       if (r < 3) { s.op = "upd"; s.a.push_back((long long)g.below(4)); }
       else if (r < 5) { s.op = "par"; s.a.push_back((long long)g.below(4)); s.a.push_back((long long)g.below(4)); }
-      else if (r < 7) { s.op = "chg"; long long w = (long long)g.below(7); if (w == 6) w = 5; s.a.push_back(w); s.a.push_back((long long)g.below(w == 5 ? 1000 : 4)); }
+      else if (r < 7) { s.op = "chg"; long long w = (long long)g.below(8); if (w == 7) w = 5; s.a.push_back(w); s.a.push_back((long long)g.below(w >= 5 ? 1000 : 4)); }
       else query(g.chance(1, 2) ? F0[g.below(9)] : F1[g.below(12)]);
     }
     p.steps.push_back(s);
